@@ -7,10 +7,10 @@
 package main
 
 import (
-	"errors"
 	"bytes"
 	"crypto/sha256"
 	"encoding/json"
+	"errors"
 	"fmt"
 	"math/rand"
 	"os"
@@ -22,6 +22,7 @@ import (
 	"strings"
 	"sync"
 	"sync/atomic"
+	"syscall"
 	"time"
 
 	"github.com/rogpeppe/go-internal/cache"
@@ -39,6 +40,24 @@ const (
 var sizesA = [nA]int{0, 1, 100, 4096, 32768, 32769, 100 << 10, 7, 300 << 10, 1 << 20, 65537, 98304,
 	40000, 70000, 200 << 10, 33000, 512 << 10, 66000, 131072, 99999, 160 << 10, 45000, 250000, 36000}
 var sizesB = []int{64, 1000, 32769, 200 << 10}
+
+// T ids: identical content per id like the A ids, but now and then a worker removes their output
+// file, as Trim does to an entry that was only kept fresh through Get (which refreshes the index
+// entry, not the output). Lookups may then miss - what they return must still be exact, also
+// while the output is being written again.
+const nT = 4
+
+func idT(k int) cache.ActionID { return cache.ActionID(sha256.Sum256([]byte(fmt.Sprintf("T-%d", k)))) }
+
+var contentTCache [nT][]byte
+var contentTOnce [nT]sync.Once
+
+func contentT(k int) []byte {
+	contentTOnce[k].Do(func() {
+		contentTCache[k] = payload.Make("T", int64(k), []int{300 << 10, 512 << 10, 700 << 10, 1 << 20}[k%4])
+	})
+	return contentTCache[k]
+}
 
 func idA(k int) cache.ActionID { return cache.ActionID(sha256.Sum256([]byte(fmt.Sprintf("A-%d", k)))) }
 func idB(k int) cache.ActionID { return cache.ActionID(sha256.Sum256([]byte(fmt.Sprintf("B-%d", k)))) }
@@ -129,17 +148,19 @@ type event struct {
 }
 
 type workerResult struct {
-	Ops        int64            `json:"ops"`
-	Puts       int64            `json:"puts"`
-	HitsA      int64            `json:"hits_a"`
-	MissA      int64            `json:"miss_a"`
-	MissAEarly int64            `json:"miss_a_before_any_put_completed"`
-	FailedPuts int64            `json:"puts_with_a_failing_source"`
-	HitsB      int64            `json:"hits_b"`
-	MissB      int64            `json:"miss_b"`
-	Hook       map[string]int64 `json:"hook"`
-	Violations []map[string]string `json:"violations"`
-	Events     []event          `json:"events"`
+	Ops             int64 `json:"ops"`
+	Puts            int64 `json:"puts"`
+	HitsA           int64 `json:"hits_a"`
+	MissA           int64 `json:"miss_a"`
+	MissAEarly      int64 `json:"miss_a_before_any_put_completed"`
+	FailedPuts      int64 `json:"puts_with_a_failing_source"`
+	TOutputsRemoved int64 `json:"outputs_removed_under_a_live_index_entry"`
+	THits, TMisses  int64
+	HitsB           int64               `json:"hits_b"`
+	MissB           int64               `json:"miss_b"`
+	Hook            map[string]int64    `json:"hook"`
+	Violations      []map[string]string `json:"violations"`
+	Events          []event             `json:"events"`
 }
 
 // ---------- worker process ----------
@@ -198,7 +219,78 @@ func worker() {
 			rng := rand.New(rand.NewSource(seed*1000 + int64(g)))
 			var evs []event
 			for i := 0; i < N; i++ {
-				k := rng.Intn(nA + nB)
+				k := rng.Intn(nA + nB + nT/2) // the T ids are drawn less often
+				if k >= nA+nB {
+					tk := rng.Intn(nT)
+					id, want := idT(tk), contentT(tk)
+					atomic.AddInt64(&res.Ops, 1)
+					// The removal is the harness's own doing, so it must not cut into a lookup that is
+					// between GetFile and reading the named file (a real Trim only removes what nobody
+					// has used for days): lookups hold a shared flock on a side file, the removal an
+					// exclusive one. Puts take none, so they overlap with lookups freely.
+					guard, gerr := os.OpenFile(filepath.Join(dir, fmt.Sprintf("harness-guard-T%d", tk)), os.O_RDWR|os.O_CREATE, 0o666)
+					if gerr != nil {
+						continue
+					}
+					op := rng.Intn(5)
+					switch {
+					case op == 0:
+						syscall.Flock(int(guard.Fd()), syscall.LOCK_EX)
+					case op >= 3:
+						syscall.Flock(int(guard.Fd()), syscall.LOCK_SH)
+					}
+					func() {
+						defer guard.Close() // releases the flock
+						switch op {
+						case 0: // the output disappears (as after a Trim), the index entry stays
+							h := sha256.Sum256(want)
+							os.Remove(filepath.Join(dir, fmt.Sprintf("%02x", h[0]), fmt.Sprintf("%x-d", h)))
+							atomic.AddInt64(&res.TOutputsRemoved, 1)
+						case 1, 2:
+							var err error
+							if rng.Intn(2) == 0 {
+								_, _, err = c.Put(id, &slowSource{Reader: bytes.NewReader(want), x: uint64(rng.Int63())})
+							} else {
+								err = c.PutBytes(id, want)
+							}
+							if err != nil {
+								viol("put-failed", fmt.Sprintf("Put(id T%d) returned %v", tk, err))
+							}
+						default:
+							var data []byte
+							var ent cache.Entry
+							var err error
+							api := "GetBytes"
+							if rng.Intn(3) != 0 {
+								api = "GetFile"
+								var file string
+								file, ent, err = c.GetFile(id)
+								if err == nil {
+									data, err = os.ReadFile(file)
+									if err != nil {
+										// removed by another worker between GetFile and the read: a miss
+										atomic.AddInt64(&res.TMisses, 1)
+										return
+									}
+								}
+							} else {
+								data, ent, err = c.GetBytes(id)
+							}
+							if err != nil {
+								if !strings.HasPrefix(err.Error(), "cache entry not found") {
+									viol("lookup-failed", fmt.Sprintf("id T%d: lookup returned %v (not a not-found error)", tk, err))
+								}
+								atomic.AddInt64(&res.TMisses, 1)
+								return
+							}
+							atomic.AddInt64(&res.THits, 1)
+							if int64(len(data)) != ent.Size || sha256.Sum256(data) != [32]byte(ent.OutputID) || !bytes.Equal(data, want) {
+								viol("foreign-or-corrupt-bytes", fmt.Sprintf("id T%d (its output file is removed and stored again during the round): %s returned %d bytes (entry size %d) that are not its content; first difference at offset %d", tk, api, len(data), ent.Size, firstDiff(data, want)))
+							}
+						}
+					}()
+					continue
+				}
 				isA := k < nA
 				atomic.AddInt64(&res.Ops, 1)
 				if rng.Intn(2) == 0 {
@@ -318,6 +410,18 @@ func worker() {
 	os.WriteFile(out, b, 0o666)
 }
 
+func firstDiff(a, b []byte) int {
+	for i := 0; i < len(a) && i < len(b); i++ {
+		if a[i] != b[i] {
+			return i
+		}
+	}
+	if len(a) < len(b) {
+		return len(a)
+	}
+	return len(b)
+}
+
 // ---------- parent ----------
 
 type ccase struct {
@@ -334,7 +438,7 @@ func main() {
 		return
 	}
 	vlib.Main("C11", "exploration", 10*time.Minute, func(r *vlib.Run) {
-		r.Rule("rounds; each round = fresh cache directory shared by P processes (3-8) x G goroutines (4-8) released together, each doing N operations on 24 identical-content ids (sizes 0..1MiB, half of the Puts from a slow source) and 8 differing-content ids (64B..200KiB): 50% Put/PutBytes, 50% GetBytes/GetFile, with seeded delays at the cache.* hook points. Evaluations = operations executed; distinct non-trivial = lookups that overlapped in time with a Put of the same id in another goroutine or process (counted from the merged op log), plus rounds. One in twelve Puts of a differing-content id uses a source that fails half-way through the copy pass (fresh content), and before the final sweep one such failing Put is made on every stored differing-content id: writers that finish with an error must not hide what was stored.")
+		r.Rule("rounds; each round = fresh cache directory shared by P processes (3-8) x G goroutines (4-8) released together, each doing N operations on 24 identical-content ids (sizes 0..1MiB, half of the Puts from a slow source) and 8 differing-content ids (64B..200KiB): 50% Put/PutBytes, 50% GetBytes/GetFile, with seeded delays at the cache.* hook points. Evaluations = operations executed; distinct non-trivial = lookups that overlapped in time with a Put of the same id in another goroutine or process (counted from the merged op log), plus rounds. One in twelve Puts of a differing-content id uses a source that fails half-way through the copy pass (fresh content), and before the final sweep one such failing Put is made on every stored differing-content id: writers that finish with an error must not hide what was stored. Four further identical-content ids (300 KiB - 1 MiB) have their output file removed now and then while their index entry stays (what Trim does to an entry kept fresh through Get only) and are stored again concurrently: their lookups may miss, but what they return must be exact.")
 		r.Assume("Trim is not part of this workload; flag 'Put completed' is set after Put returned and sampled before the lookup is invoked (client boundary)")
 		base := vlib.Scratch()
 		rounds := r.Pick(12, 90)
@@ -413,6 +517,9 @@ func main() {
 				tot.MissA += wr.MissA
 				tot.MissAEarly += wr.MissAEarly
 				tot.FailedPuts += wr.FailedPuts
+				tot.TOutputsRemoved += wr.TOutputsRemoved
+				tot.THits += wr.THits
+				tot.TMisses += wr.TMisses
 				tot.HitsB += wr.HitsB
 				tot.MissB += wr.MissB
 				for k, v := range wr.Hook {
@@ -514,6 +621,8 @@ func main() {
 		r.Set("misses_identical_content_ids", tot.MissA)
 		r.Set("misses_identical_before_any_put_completed", tot.MissAEarly)
 		r.Set("puts_with_a_failing_source_during_the_rounds", tot.FailedPuts)
+		r.Set("outputs_removed_under_a_live_index_entry", tot.TOutputsRemoved)
+		r.Set("lookups_of_such_ids_hit_and_missed", []int64{tot.THits, tot.TMisses})
 		r.Set("hits_differing_content_ids", tot.HitsB)
 		r.Set("misses_differing_content_ids", tot.MissB)
 		r.Set("hook_hits", hook)
